@@ -10,12 +10,17 @@ CONSTANTS MaxItems = 2
  Budget = 2
  IdOffs <- IdOffs3
  Rules = {"assume", "implies_intr", "implies_elim", "substitution", "theorem", "sorry", "", "subproof", "verif_gap1"}
+ ArgKinds = {}
+ ArityOffs <- ArityOffs1
+ MaxAlias = 0
  Emit = FALSE
  FxIdPos = FALSE
  FxNegIdx = FALSE
  FxEmpty = FALSE
  FxExtNg = FALSE
  FxExtCmp = FALSE
+ FxArgSig = FALSE
+ FxPosOcc = FALSE
 INVARIANT ImplRefines
 INVARIANT ImplNoGaps
 INVARIANT ImplGapsExact
